@@ -322,9 +322,10 @@ class MessageQueue(Entity):
 
         yield self._delivery_latency
 
-        # Create delivery event
+        # Create delivery event, stamped with the time after the delivery latency
+        # (``now`` was captured before the yield and lies in the past by then)
         delivery_event = Event(
-            time=now,
+            time=self._clock.now if self._clock else now,
             event_type="message_delivery",
             target=consumer,
             context={
